@@ -11,6 +11,7 @@ A decoded element is a new object with the content of the encoded one (`E.clK`, 
 (`hk`, `hv` below).  Sets are the `V = ()` instance (`E.vGlue = false`, entries `(k, ())`).
 -/
 import Micromap.Proofs.Serde
+import Micromap.Proofs.SerdeAny
 import Micromap.Proofs.SysInv
 import Micromap.Props.C14
 
@@ -89,5 +90,200 @@ theorem deserialize_safe (toks : List (Tok K V)) (cap : Nat) (w : World K V Q) :
 
 example : tokens [((1 : Nat), (10 : Nat)), (2, 20)] =
     [.start (some 2), .entry 1 10, .entry 2 20, .fin] := rfl
+
+/-! ### arbitrary token streams: entries in any order, repeated keys
+
+A stream no `Serialize` of the crate writes, but any other producer may.  The visitor is
+`while let Some((k, v)) = access.next_entry()? { m.insert(k, v); }` on a fresh local, so the result
+is the fold of single inserts (`FromIter.foldInsert`, the list-level reference of C16) of the DECODED
+copies of the entries, in stream order.  `decodedFrom E n xs` are those copies: entry `i` is decoded
+at the consecutive fresh-object counters `n + i * decStep E` (key, `E.clK`) and the next one (value,
+`E.clV`; for `V = ()`, `E.vGlue = false`, the value is not decoded and `decStep E = 1`). -/
+
+section anyStream
+open FromIter
+
+/-- "fits", as C16 states it for `from_iter` (no decoded entry overflows), is the same as: the fold
+    — one entry per distinct key — is no longer than the capacity. -/
+theorem stream_fits_iff (cap : Nat) (xs' : List (K × V)) :
+    overflowAt E cap [] xs' = none ↔ (foldInsert E [] xs').length ≤ cap :=
+  overflowAt_none_iff_fold_le E cap xs'
+
+/-- **Deserialization of an arbitrary entry stream = inserting the decoded entries one by one into
+    `new()`.**  Benign world, time-independent `==`, any announced length `a`, any entries `xs`
+    (repeats allowed), the distinct decoded keys fit: `deserialize` returns a container of the target
+    capacity that holds EXACTLY `foldInsert E [] (decodedFrom E w.nextId xs)` — same slot order, the
+    first decoded key object of each class kept, its last value.  The effects are those of the
+    single inserts (`itemsTrace`: for a repeated key the decoded key is dropped, then the displaced
+    value), and the counter has advanced by one `decStep` per entry. -/
+theorem deserialize_stream_is_fold_insert (hE : E.Pure) (a : Option Nat) (xs : List (K × V))
+    (cap : Nat) (w : World K V Q) (hb : Benign w)
+    (hfit : (foldInsert E [] (decodedFrom E w.nextId xs)).length ≤ cap) :
+    ∃ s', deserializeInto E (.start a :: xs.map (fun p => Tok.entry p.1 p.2) ++ [.fin])
+        ⟨Raw.new cap, w⟩ = .ok () s' ∧
+      Rep s'.r (foldInsert E [] (decodedFrom E w.nextId xs)) ∧ s'.r.cap = cap ∧
+      WRel w s'.w (itemsTrace E false [] (decodedFrom E w.nextId xs)) ∧
+      s'.w.nextId = w.nextId + xs.length * decStep E :=
+  deserialize_eq_fold E hE a xs cap w hb ((stream_fits_iff E cap _).2 hfit)
+
+/-- the decoded copies, entry by entry. -/
+theorem decoded_entry (xs : List (K × V)) (n i : Nat) (hi : i < xs.length) :
+    (decodedFrom E n xs).length = xs.length ∧
+    (decodedFrom E n xs)[i]? =
+      some (E.clK (n + i * decStep E) xs[i].1, decV E (n + i * decStep E + 1) xs[i].2) := by
+  refine ⟨decodedFrom_length E n xs, ?_⟩
+  rw [List.getElem?_eq_getElem (by rw [decodedFrom_length]; exact hi), decodedFrom_getElem E xs n i hi]
+
+/-- **first key object kept** (as `C16.first_key_kept`): the stored key objects are, in slot order,
+    the first decoded key of each class. -/
+theorem stream_first_key_kept (n : Nat) (xs : List (K × V)) :
+    (foldInsert E [] (decodedFrom E n xs)).map (·.1) =
+      firstKeys E.keq [] ((decodedFrom E n xs).map (·.1)) := by
+  simpa using foldInsert_keys E (decodedFrom E n xs) []
+
+/-- **Lawful `==` that decoding respects.**  If `d` covers the keys of the stream and `|d| ≤ cap`
+    then however many entries and repeats the stream has, `deserialize` succeeds; the result has
+    pairwise unequal keys, at most `|d|` entries, and every key maps to the value of the LAST decoded
+    entry with an equal key (`none` if there is none). -/
+theorem deserialize_stream_lawful (hE : E.Lawful) (hk : ∀ n k, E.keq (E.clK n k) k = true)
+    (a : Option Nat) (xs : List (K × V)) (cap : Nat) (d : List K)
+    (hd : ∀ x, x ∈ xs.map (·.1) → memB E.keq x d = true) (hdc : d.length ≤ cap)
+    (w : World K V Q) (hb : Benign w) :
+    ∃ s', deserializeInto E (.start a :: xs.map (fun p => Tok.entry p.1 p.2) ++ [.fin])
+        ⟨Raw.new cap, w⟩ = .ok () s' ∧
+      Rep s'.r (foldInsert E [] (decodedFrom E w.nextId xs)) ∧ s'.r.cap = cap ∧
+      NodupKeys E.keq (foldInsert E [] (decodedFrom E w.nextId xs)) ∧
+      (foldInsert E [] (decodedFrom E w.nextId xs)).length ≤ d.length ∧
+      ∀ q, lookupL E.keq (foldInsert E [] (decodedFrom E w.nextId xs)) q =
+        ((decodedFrom E w.nextId xs).reverse.find? (fun p => E.keq p.1 q)).map (·.2) := by
+  have hnil : NodupKeys E.keq ([] : List (K × V)) := by simp [NodupKeys, NodupB]
+  have hcov := decoded_cover hE hk xs w.nextId d hd
+  have hfit : overflowAt E cap [] (decodedFrom E w.nextId xs) = none :=
+    overflowAt_none_of_cover hE cap d hdc _ [] hnil (fun x hx => hcov x (by simpa using hx))
+  obtain ⟨s', h1, h2, h3, _⟩ := deserialize_eq_fold E hE.toPure a xs cap w hb hfit
+  refine ⟨s', h1, h2, h3, foldInsert_nodup hE _ [] hnil, ?_, fun q => ?_⟩
+  · exact foldInsert_length_le_cover hE [] _ hnil d (fun x hx => hcov x (by simpa using hx))
+  · rw [lookupL_foldInsert hE _ [] hnil q]
+    cases (decodedFrom E w.nextId xs).reverse.find? (fun p => E.keq p.1 q) <;> rfl
+
+/-- **the number of entries is the number of distinct keys of the stream**: the length of any
+    duplicate-free system `d` of representatives of the stream's keys. -/
+theorem stream_len_eq_distinct (hE : E.Lawful) (hk : ∀ n k, E.keq (E.clK n k) k = true)
+    (xs : List (K × V)) (n : Nat) (d : List K) (hdn : NodupB E.keq d)
+    (hd1 : ∀ x, x ∈ xs.map (·.1) → memB E.keq x d = true)
+    (hd2 : ∀ y, y ∈ d → memB E.keq y (xs.map (·.1)) = true) :
+    (foldInsert E [] (decodedFrom E n xs)).length = d.length :=
+  foldInsert_length_eq_distinct hE [] _ (by simp [NodupKeys, NodupB]) d hdn
+    (fun x hx => decoded_cover hE hk xs n d hd1 x (by simpa using hx))
+    (fun y hy => by simpa using decoded_cover' hE hk xs n y (hd2 y hy))
+
+/-- the decoded entries answer every key test as the stream entries do, position by position … -/
+theorem stream_key_tests (hE : E.Lawful) (hk : ∀ n k, E.keq (E.clK n k) k = true) (q : K)
+    (xs : List (K × V)) (n : Nat) :
+    (decodedFrom E n xs).map (fun p => E.keq p.1 q) = xs.map (fun p => E.keq p.1 q) :=
+  decodedFrom_keq hE hk q xs n
+
+/-- … hence **the last value of the stream wins**: if entry `i` of the stream is the last one whose
+    key equals `q`, the result maps `q` to the decoded copy of that entry's value; a key equal to no
+    stream key is absent. -/
+theorem stream_last_value_wins (hE : E.Lawful) (hk : ∀ n k, E.keq (E.clK n k) k = true)
+    (xs : List (K × V)) (n : Nat) (q : K) :
+    (∀ i (hi : i < xs.length), E.keq xs[i].1 q = true →
+      (∀ j (hj : j < xs.length), i < j → E.keq xs[j].1 q = false) →
+      lookupL E.keq (foldInsert E [] (decodedFrom E n xs)) q =
+        some (decV E (n + i * decStep E + 1) xs[i].2)) ∧
+    ((∀ p, p ∈ xs → E.keq p.1 q = false) →
+      lookupL E.keq (foldInsert E [] (decodedFrom E n xs)) q = none) := by
+  have hnil : NodupKeys E.keq ([] : List (K × V)) := by simp [NodupKeys, NodupB]
+  have hlen := decodedFrom_length E n xs
+  have hkey : ∀ j (hj : j < xs.length),
+      E.keq ((decodedFrom E n xs)[j]'(by rw [hlen]; exact hj)).1 q = E.keq xs[j].1 q := by
+    intro j hj
+    rw [decodedFrom_getElem E xs n j hj]; exact keq_decoded hE hk _ _ _
+  constructor
+  · intro i hi hP hlast
+    have hf := find?_reverse_last (fun p : K × V => E.keq p.1 q) (decodedFrom E n xs) i
+      (by rw [hlen]; exact hi) (by rw [hkey i hi]; exact hP)
+      (fun j hj hij => by
+        have hj' : j < xs.length := by rw [← hlen]; exact hj
+        show E.keq ((decodedFrom E n xs)[j]).1 q = false
+        rw [hkey j hj']; exact hlast j hj' hij)
+    rw [lookupL_foldInsert hE _ [] hnil q, hf, decodedFrom_getElem E xs n i hi]
+  · intro hall
+    have hf : (decodedFrom E n xs).reverse.find? (fun p => E.keq p.1 q) = none := by
+      rw [List.find?_eq_none]
+      intro x hx
+      obtain ⟨j, hj, rfl⟩ := List.mem_iff_getElem.1 (List.mem_reverse.1 hx)
+      have hj' : j < xs.length := by rw [← hlen]; exact hj
+      rw [hkey j hj', hall _ (List.getElem_mem hj')]; simp
+    rw [lookupL_foldInsert hE _ [] hnil q, hf]; rfl
+
+/-- **Overflow.**  If the distinct decoded keys do not fit, some decoded entry `m` is the first
+    surplus one (`overflowAt … = some m`, see `C16.overflow_meaning`); `deserialize` unwinds with the
+    overflow class of the build profile at that entry, whose value and key are dropped, and the
+    partially built local — the fold of the decoded entries before it — has been dropped, each of its
+    entries once, after the effects of the loop. -/
+theorem deserialize_stream_overflow (hE : E.Pure) (a : Option Nat) (xs : List (K × V)) (cap : Nat)
+    (w : World K V Q) (hb : Benign w)
+    (hbig : cap < (foldInsert E [] (decodedFrom E w.nextId xs)).length) :
+    ∃ m c s' k v, overflowAt E cap [] (decodedFrom E w.nextId xs) = some m ∧
+      deserializeInto E (.start a :: xs.map (fun p => Tok.entry p.1 p.2) ++ [.fin])
+        ⟨Raw.new cap, w⟩ = .panic c s' ∧
+      OverflowPanic (⟨Raw.new cap, w⟩ : St K V Q) c ∧
+      (decodedFrom E w.nextId xs)[m]? = some (k, v) ∧
+      Dropped s'.r (foldInsert E [] ((decodedFrom E w.nextId xs).take m)) ∧ s'.r.cap = cap ∧
+      WRel w s'.w ((itemsTrace E false [] ((decodedFrom E w.nextId xs).take m) ++
+        (dropVTr E v ++ [.dropK k])) ++
+        dropTrace E (foldInsert E [] ((decodedFrom E w.nextId xs).take m))) := by
+  obtain ⟨m, hm⟩ := overflowAt_some_of_lt_fold E cap _ hbig
+  obtain ⟨c, s', k, v, h⟩ := deserialize_overflow' E hE a xs cap w hb hm
+  exact ⟨m, c, s', k, v, hm, h⟩
+
+end anyStream
+
+/-! ### non-vacuity for streams with repeated keys (tests) -/
+
+/-- keys compare by their last two digits; decoding gives a key / value a fresh identity in the
+    higher digits (the counter at which it was decoded), which `==` ignores. -/
+def streamEnv : Env Nat Nat Nat :=
+  { eqK := fun _ a b => a % 100 == b % 100, eqQ := fun _ a b => a % 100 == b % 100,
+    eqV := fun a b => a % 100 == b % 100, borrow := id,
+    clK := fun n k => k % 100 + 100 * (n + 1), clV := fun n v => v % 100 + 100 * (n + 1) }
+
+example : streamEnv.Pure := ⟨fun _ _ _ => rfl, fun _ _ _ => rfl⟩
+example : ∀ n k, streamEnv.keq (streamEnv.clK n k) k = true := by
+  intro n k; simp [Env.keq, streamEnv]
+/-- keys 1, 2, 1: the decoded copies (counters 0..5), … -/
+example : decodedFrom streamEnv 0 [(1, 10), (2, 20), (1, 30)] = [(101, 210), (302, 420), (501, 630)] := by
+  decide
+/-- … two distinct keys: the fold has the FIRST decoded key object `101` with the LAST value `630`; -/
+example : FromIter.foldInsert streamEnv [] (decodedFrom streamEnv 0 [(1, 10), (2, 20), (1, 30)]) =
+    [(101, 630), (302, 420)] := by decide
+/-- it fits capacity 2 although the stream has 3 entries (and announces 7), not capacity 1; -/
+example : FromIter.overflowAt streamEnv 2 [] (decodedFrom streamEnv 0 [(1, 10), (2, 20), (1, 30)]) = none := by
+  decide
+example : FromIter.overflowAt streamEnv 1 [] (decodedFrom streamEnv 0 [(1, 10), (2, 20), (1, 30)]) = some 1 := by
+  decide
+/-- what a test looks at in an outcome, as numbers: `[0 = returned / 1 = unwound with the overflow
+    class / 2 = unwound otherwise, len, counter]` followed by slots 0 and 1 (`[k, v]`, or `[]` if dead). -/
+def streamView : Res (St Nat Nat Nat) Unit → List (List Nat)
+  | .ok _ s' => [[0, s'.r.len, s'.w.nextId], slot (s'.r.slots 0), slot (s'.r.slots 1)]
+  | .panic c s' => [[if c = .overflow then 1 else 2, s'.r.len, s'.w.nextId], slot (s'.r.slots 0),
+      slot (s'.r.slots 1)]
+  | .ub => []
+where slot : Option (Nat × Nat) → List Nat
+  | some (k, v) => [k, v]
+  | none => []
+
+-- (`decide +kernel`: the kernel evaluates the model by reduction; nothing is compiled or assumed)
+/-- the model run itself: capacity 2 → both slots as the fold says, `len = 2`, counter at 6; -/
+example : streamView (deserializeInto streamEnv
+      [.start (some 7), .entry 1 10, .entry 2 20, .entry 1 30, .fin] ⟨Raw.new 2, {}⟩) =
+    [[0, 2, 6], [101, 630], [302, 420]] := by decide +kernel
+/-- capacity 1 → the overflow panic of the debug profile at the second entry (counter at 4), the
+    local dropped (slot 0 dead, `len` stale). -/
+example : streamView (deserializeInto streamEnv
+      [.start none, .entry 1 10, .entry 2 20, .entry 1 30, .fin] ⟨Raw.new 1, {}⟩) =
+    [[1, 1, 4], [], []] := by decide +kernel
 
 end Micromap.Props.C20
